@@ -25,7 +25,7 @@ SPECIAL_STRS = [
 SPECIAL_FLOATS = ["nan", "inf", "-inf", "-0.0", "0.0", "1.0", "-1.0", "0.5", "1.5", "2.5", "-2.5", "1e16", "1e22", "1e300",
                   "-1e300", "5e-324", "1.7976931348623157e+308", "0.1", "0.30000000000000004", "9007199254740993.0",
                   "1577934245.0", "2e10", "2.0000000001e10", "1e-7", "123.456", "99.99"]
-SPECIAL_DECIMALS = ["0", "-0", "1", "1.0", "1.50", "1.500", "0.0123", "99.99", "123.456", "1E+3", "12E+2", "9.99E+3",
+SPECIAL_DECIMALS = ["0.12345678901234567890", "2.000000000000000000001", "-1.2345678901234567890123", "123456.7890123456789", "0", "-0", "1", "1.0", "1.50", "1.500", "0.0123", "99.99", "123.456", "1E+3", "12E+2", "9.99E+3",
                     "0E+2", "1E-7", "NaN", "sNaN", "Infinity", "-Infinity", "1E+400", "-1E+400", "1E-400",
                     "123456789012345678901234567890", "0.1", "1577934245", "3.0", "2.50"]
 SPECIAL_INTS = [0, 1, -1, 2, 3, 7, 10, 100, 255, 1000, 2 ** 31, 2 ** 53, 2 ** 53 + 1, -2 ** 63, 10 ** 30, -(10 ** 30),
